@@ -147,9 +147,6 @@ static void hq_requires(char *string)
     string[N - 1] = 0;
     cv_statics_reset();
     _Bool later_call, have;
-#ifdef ONLY_FIRST
-    later_call = 0; have = 0;
-#endif
     snap_valid = 0;
     if (later_call) {
         cv_prior_call_bound_table();
